@@ -4,6 +4,8 @@ import json, os
 ROOT = os.path.dirname(os.path.abspath(__file__))
 S = 'Engine S: symbolic execution of the clang-14 LLVM IR of the real translation unit (harness #includes the .cpp), z3 decides every assertion and every memory/UB obligation on every path'
 CLAIMED = {
+ 'C22': ('Bounded symbolic check of SwarmCoordinator::compute_plan over the real KademliaTable: every shard is assigned to exactly one provider, providers are distinct live peers other than the node, each gets at least one shard, counts differ by at most one, and the provider count equals the stated formula for every 16-bit minimum-provider / target-replica setting, candidate sample 0..8 and threshold.',
+         'table contents per job (0..4 live contacts, optional expired contact and local id), 1..6 shards; peer-load snapshot empty and score jitter fixed (libstdc++ uses long double there); diagnostics text is a sink'),
  'C27': ('Bounded symbolic check of the control-plane handlers handle_stop / handle_store / handle_fetch (lifted from the current daemon/ControlServer.cpp into a class with a recording node and recording send_response): with a control token configured, a request whose token is absent or any different 2-4 byte string gets an *_UNAUTHENTICATED error and nothing is stored, registered, fetched, written or stopped; the exact token is accepted.',
          'ControlServer::Impl itself (sockets, accept thread), recv_line / parse_request and handle_client dispatch are not encoded: requests are handed over parsed'),
  'C28': ('Bounded symbolic check of STORE admission in the lifted handle_store (size cap, TTL text with symbolic characters against a symbolic window, proof-of-work gate) and of the rate limits: 7 STOREs (13 streamed FETCHes on thorough) from one client address at symbolic times with absent / changing / constant TOKEN headers - at most 6 (12) accepted in any 30 s window.',
